@@ -247,8 +247,67 @@ def kernel_is_360():
     return _kernel_lonconv("_is_360", "is360")
 
 
+def kernel_smooth_facts():
+    """utils.smooth_spec -> structural facts the C16 model depends on, as Lean strings:
+    which object's direction coordinate is cast to float32 and put on the sorted copy, which variable sizes the
+    circular padding (the loop variable `window` is resolved to the LAST element of the validated list), and the
+    source text of the circularity test, the rolling mean, the clip-back and the fill."""
+    fn = find_func("wavespectra/core/utils.py", "smooth_spec")
+    top = body_stmts(fn)
+    args = [a.arg for a in fn.args.args]
+    if args != ["dset", "freq_window", "dir_window"]:
+        raise Untranslatable("smooth_spec: signature")
+    loop = [s for s in top if isinstance(s, ast.For)]
+    if len(loop) != 1 or not isinstance(loop[0].target, ast.Name) or not isinstance(loop[0].iter, (ast.List, ast.Tuple)):
+        raise Untranslatable("smooth_spec: validation loop")
+    loopvar = loop[0].target.id
+    validated = [ast.unparse(e) for e in loop[0].iter.elts]
+    test = ast.unparse(loop[0].body[0].test) if isinstance(loop[0].body[0], ast.If) else "?"
+    raises = ast.unparse(loop[0].body[0].body[0].exc.func) if isinstance(loop[0].body[0].body[0], ast.Raise) else "?"
+    label_src = None
+    for s in top:
+        if (isinstance(s, ast.Assign) and isinstance(s.targets[0], ast.Subscript) and ast.unparse(s.targets[0]) == "dsout[attrs.DIRNAME]"):
+            v = s.value
+            if (isinstance(v, ast.Call) and isinstance(v.func, ast.Attribute) and v.func.attr == "astype"
+                    and isinstance(v.func.value, ast.Subscript) and isinstance(v.func.value.value, ast.Name)
+                    and ast.unparse(v.func.value.slice) == "attrs.DIRNAME" and ast.unparse(v.args[0]) == "'float32'"):
+                label_src = v.func.value.value.id
+    if label_src is None:
+        raise Untranslatable("smooth_spec: float32 label assignment not found")
+    sort_stmt = [ast.unparse(s) for s in top if isinstance(s, ast.Assign) and "sortby" in ast.unparse(s.value)]
+    pads = []
+    circ = None
+    for s in ast.walk(fn):
+        if isinstance(s, ast.Call) and ast.unparse(s.func) == "slice":
+            for a in s.args:
+                for n in ast.walk(a):
+                    if isinstance(n, ast.Name):
+                        pads.append(validated[-1] if n.id == loopvar else n.id)
+        if isinstance(s, ast.Assign) and ast.unparse(s.targets[0]) == "is_circular" and not isinstance(s.value, ast.Constant):
+            circ = ast.unparse(s.value)
+    others = {}
+    for s in top:
+        if isinstance(s, ast.Assign) and ast.unparse(s.targets[0]) == "dsout":
+            src = ast.unparse(s.value)
+            for key in ("rolling", "assign_coords", "xr.where"):
+                if key in src:
+                    others[key] = src
+        if isinstance(s, ast.If) and "equals" in ast.unparse(s.test):
+            others["clip"] = ast.unparse(s.test) + " => " + "; ".join(ast.unparse(b) for b in s.body)
+
+    def q(x):
+        return '"' + str(x).replace("\\", "\\\\").replace('"', '\\"') + '"'
+
+    facts = [("smooth_validated", q(", ".join(validated))), ("smooth_validation", q(f"{test} -> {raises}")),
+             ("smooth_sort", q("; ".join(sort_stmt))), ("smooth_label_source", q(label_src)),
+             ("smooth_pad_sizes", q(", ".join(pads))), ("smooth_circular_test", q(circ)),
+             ("smooth_rolling", q(others.get("rolling"))), ("smooth_clip", q(others.get("clip"))),
+             ("smooth_assign_coords", q(others.get("assign_coords"))), ("smooth_fill", q(others.get("xr.where")))]
+    return "".join(f"def {k} : String := {v}\n" for k, v in facts)
+
+
 KERNELS = {"Tps": [kernel_tps, kernel_tp], "IsOverlap": [kernel_is_overlap], "Angle": [kernel_angle],
-           "LonConv": [kernel_is_180, kernel_is_360]}
+           "LonConv": [kernel_is_180, kernel_is_360], "SmoothFacts": [kernel_smooth_facts]}
 # extra imports of a generated kernel file (helpers the kernel's grammar maps to)
 KERNEL_IMPORTS = {"LonConv": ["WsVerif.Model.Select"]}
 
@@ -293,6 +352,12 @@ LITS = [
     ("era5_from_era5", "wavespectra/input/era5.py", "from_era5"),
     ("ndbc_construct_spectra", "wavespectra/input/ndbc.py", "_construct_spectra"),
     ("ndbc_from_ndbc", "wavespectra/input/ndbc.py", "from_ndbc"),
+    ("partition_np_ptm1", "wavespectra/partition/partition.py", "np_ptm1"),
+    ("partition_np_ptm2", "wavespectra/partition/partition.py", "np_ptm2"),
+    ("partition_np_ptm3", "wavespectra/partition/partition.py", "np_ptm3"),
+    ("utils_regrid_spec", "wavespectra/core/utils.py", "regrid_spec"),
+    ("specarray_rotate", "wavespectra/specarray.py", "SpecArray.rotate"),
+    ("utils_smooth_spec", "wavespectra/core/utils.py", "smooth_spec"),
     ("select_distance", "wavespectra/core/select.py", "Coordinates.distance"),
     ("select_swap", "wavespectra/core/select.py", "Coordinates._swap_longitude_convention"),
     ("select_sel_bbox", "wavespectra/core/select.py", "sel_bbox"),
